@@ -56,10 +56,6 @@ theorem Pres_silent {G : Type} {f : G → Event → Option Clause × G} {Inv : G
   intro g s hi _
   exact ⟨rfl, hh g s hi⟩
 
-/-- One call of `BeginExecuteNotification` as a step. -/
-def beginStep (c : Cfg) (ty : NType) (force reminder : Bool) (e : Env) : St → St × List Event :=
-  fun s => ((beginExec c s ty force reminder e).1, (beginExec c s ty force reminder e).2.toList)
-
 /-- `Pres` for a single call, in terms of the checker's event function. -/
 theorem Pres_begin {G : Type} {f : G → Event → Option Clause × G} {Inv : G → St → Prop} {P : Event → Prop}
     (c : Cfg) (ty : NType) (force reminder : Bool) (e : Env)
@@ -96,19 +92,48 @@ theorem Pres_fireOne {G : Type} {f : G → Event → Option Clause × G} {Inv : 
   · simp only [if_true] at hp ⊢
     exact hb g _ (hsup g s _ hi) hp
 
+theorem Pres_fireSup {G : Type} {f : G → Event → Option Clause × G} {Inv : G → St → Prop} {P : Event → Prop}
+    (c : Cfg) (e : Env)
+    (hsup : ∀ g s sup, Inv g s → Inv g { s with sup := sup })
+    (hb : ∀ ty, Pres f Inv P (beginStep c ty false false e)) : Pres f Inv P (fireSup c e) := by
+  intro g s hi hp
+  simp only [fireSup] at hp ⊢
+  exact Pres_seq (Pres_fireOne c _ .problem e hsup (hb _))
+    (Pres_seq (Pres_fireOne c _ .recovery e hsup (hb _))
+      (Pres_seq (Pres_fireOne c _ .flapStart e hsup (hb _)) (Pres_fireOne c _ .flapEnd e hsup (hb _))))
+    g _ (hsup g s _ hi) hp
+
+/-- Replaying stashed requests: each is one call with its own force flag. -/
+theorem Pres_unstashList {G : Type} {f : G → Event → Option Clause × G} {Inv : G → St → Prop} {P : Event → Prop}
+    (c : Cfg) (e : Env) (hb : ∀ ty force, Pres f Inv P (beginStep c ty force false e)) :
+    ∀ l : List (NType × Bool), Pres f Inv P (unstashList c e l) := by
+  intro l
+  induction l with
+  | nil => intro g s hi _; exact ⟨rfl, hi⟩
+  | cons a rest ih =>
+    obtain ⟨ty, force⟩ := a
+    intro g s hi hp
+    simp only [unstashList] at hp ⊢
+    exact Pres_seq (hb ty force) ih g s hi hp
+
+theorem Pres_unstash {G : Type} {f : G → Event → Option Clause × G} {Inv : G → St → Prop} {P : Event → Prop}
+    (c : Cfg) (e : Env) (hstash : ∀ g s l, Inv g s → Inv g { s with stash := l })
+    (hb : ∀ ty force, Pres f Inv P (beginStep c ty force false e)) : Pres f Inv P (unstash c e) := by
+  intro g s hi hp
+  simp only [unstash] at hp ⊢
+  exact Pres_unstashList c e hb s.stash g _ (hstash g s [] hi) hp
+
 theorem Pres_supStep {G : Type} {f : G → Event → Option Clause × G} {Inv : G → St → Prop} {P : Event → Prop}
     (c : Cfg) (e : Env)
     (hsup : ∀ g s sup, Inv g s → Inv g { s with sup := sup })
-    (hb : ∀ ty, Pres f Inv P (beginStep c ty false false e)) : Pres f Inv P (supStep c e) := by
+    (hstash : ∀ g s l, Inv g s → Inv g { s with stash := l })
+    (hb : ∀ ty force, Pres f Inv P (beginStep c ty force false e)) : Pres f Inv P (supStep c e) := by
   intro g s hi hp
   simp only [supStep] at hp ⊢
   cases hr : e.reachable
   · simp only [Bool.false_eq_true, if_false]; exact ⟨rfl, hi⟩
-  · simp only [hr, if_true, fireSup] at hp ⊢
-    exact Pres_seq (Pres_fireOne c _ .problem e hsup (hb _))
-      (Pres_seq (Pres_fireOne c _ .recovery e hsup (hb _))
-        (Pres_seq (Pres_fireOne c _ .flapStart e hsup (hb _)) (Pres_fireOne c _ .flapEnd e hsup (hb _))))
-      g _ (hsup g s _ hi) hp
+  · simp only [hr, if_true] at hp ⊢
+    exact Pres_seq (Pres_unstash c e hstash hb) (Pres_fireSup c e hsup (fun ty => hb ty false)) g s hi hp
 
 /-! ## Generic: a checker over the model's whole trace -/
 
@@ -140,22 +165,22 @@ def pre (s : St) (ty : NType) : St := if ty == .recovery then { s with lns := fu
 def passedResult (c : Cfg) (s : St) (ty : NType) (force rem : Bool) (e : Env) : St × Option Event :=
   let b := book c (pre s ty) ty e
   let r := userLoop c ty force rem e b.npu b.lns e.users
-  ({ b with npu := if ty == .recovery then [] else r.1, lns := r.2.1 }, some ⟨ty, rem, true, r.2.2⟩)
+  ({ b with npu := if ty == .recovery then [] else r.1, lns := r.2.1 }, some ⟨ty, rem, true, force, r.2.2⟩)
 
 theorem beginExec_cases (c : Cfg) (s : St) (ty : NType) (force rem : Bool) (e : Env) :
     (gPeriod force e = true ∧ beginExec c s ty force rem e =
-        ({ pre s ty with sup := stashSup (pre s ty).sup ty rem }, filteredEv ty rem)) ∨
+        ({ pre s ty with sup := stashSup (pre s ty).sup ty rem }, filteredEv ty rem force)) ∨
     (gPeriod force e = false ∧ gBegin c ty force e = true ∧ beginExec c s ty force rem e =
-        ({ pre s ty with next := e.lhsc + c.tbegin.getD 0 + 1, noMore := false }, filteredEv ty rem)) ∨
+        ({ pre s ty with next := e.lhsc + c.tbegin.getD 0 + 1, noMore := false }, filteredEv ty rem force)) ∨
     (gPeriod force e = false ∧ gBegin c ty force e = false ∧ gEnd c ty force e = true ∧
-        beginExec c s ty force rem e = (pre s ty, filteredEv ty rem)) ∨
+        beginExec c s ty force rem e = (pre s ty, filteredEv ty rem force)) ∨
     (gPeriod force e = false ∧ gBegin c ty force e = false ∧ gEnd c ty force e = false ∧ gType c ty force = true ∧
         beginExec c s ty force rem e =
           ({ pre s ty with noMore := if ty == .recovery && decide (c.interval ≤ 0) then false else (pre s ty).noMore,
                            npu := if ty == .recovery then [] else (pre s ty).npu },
-           filteredEv ty rem)) ∨
+           filteredEv ty rem force)) ∨
     (gPeriod force e = false ∧ gBegin c ty force e = false ∧ gEnd c ty force e = false ∧ gType c ty force = false ∧
-        gState c ty force e = true ∧ beginExec c s ty force rem e = (pre s ty, filteredEv ty rem)) ∨
+        gState c ty force e = true ∧ beginExec c s ty force rem e = (pre s ty, filteredEv ty rem force)) ∨
     (gPeriod force e = false ∧ gBegin c ty force e = false ∧ gEnd c ty force e = false ∧ gType c ty force = false ∧
         gState c ty force e = false ∧ beginExec c s ty force rem e = passedResult c s ty force rem e) := by
   unfold beginExec passedResult pre
@@ -286,8 +311,8 @@ theorem timesOpen_eq (c : Cfg) (e : Env) : timesOpen c e = (!beforeBegin c e && 
   unfold timesOpen beforeBegin afterEnd
   cases c.tbegin <;> cases c.tend <;> simp
 
-theorem filteredEv_cases (ty : NType) (rem : Bool) :
-    (ty ≠ .recovery ∧ filteredEv ty rem = none) ∨ (ty = .recovery ∧ filteredEv ty rem = some ⟨.recovery, rem, false, []⟩) := by
+theorem filteredEv_cases (ty : NType) (rem force : Bool) :
+    (ty ≠ .recovery ∧ filteredEv ty rem force = none) ∨ (ty = .recovery ∧ filteredEv ty rem force = some ⟨.recovery, rem, false, force, []⟩) := by
   unfold filteredEv
   cases ty <;> simp
 
@@ -295,7 +320,7 @@ theorem filteredEv_cases (ty : NType) (rem : Bool) :
     stops at a notification-level guard keeps `notified_problem_users`, except a Recovery discarded by the
     type filter (i.e. not withheld by the period), which clears it. -/
 theorem beginExec_split (c : Cfg) (s : St) (ty : NType) (force rem : Bool) (e : Env) :
-    ((beginExec c s ty force rem e).2 = filteredEv ty rem ∧
+    ((beginExec c s ty force rem e).2 = filteredEv ty rem force ∧
       (beginExec c s ty force rem e).1.npu = (if ty == .recovery && !gPeriod force e then [] else s.npu) ∧
       (beginExec c s ty force rem e).1.lns = (pre s ty).lns) ∨
     (gPeriod force e = false ∧ gBegin c ty force e = false ∧ gEnd c ty force e = false ∧ gType c ty force = false ∧
@@ -314,15 +339,15 @@ theorem beginExec_split (c : Cfg) (s : St) (ty : NType) (force rem : Bool) (e : 
   · right; exact h
 
 theorem delivery_begin (c : Cfg) (k : OpKind) (e : Env) (ty : NType) (force rem : Bool)
-    (hforce : forceOf k e = force)
-    (hflags : force = false → (e.globalEnabled && e.ckEnabled) = true)
+    (hclaim : (force && k == .send && !e.force) = false)
+    (hflags : ((!force || k == .tick) && !(e.globalEnabled && e.ckEnabled)) = false)
     (hpaused : pausedFor k e = false) :
     Pres (deliveryEv c k e) (fun _ _ => True) (fun _ => True) (beginStep c ty force rem e) := by
   apply Pres_begin
   intro g s _
   rcases beginExec_split c s ty force rem e with ⟨h, _, _⟩ | ⟨h1, h2, h3, h4, h5, h⟩
   · rw [h]
-    rcases filteredEv_cases ty rem with ⟨_, h'⟩ | ⟨_, h'⟩
+    rcases filteredEv_cases ty rem force with ⟨_, h'⟩ | ⟨_, h'⟩
     · rw [h']; trivial
     · rw [h']; intro _; simp [deliveryEv]
   · rw [h]
@@ -342,10 +367,9 @@ theorem delivery_begin (c : Cfg) (k : OpKind) (e : Env) (ty : NType) (force rem 
       refine ⟨⟨by simp [h6], h7.1⟩, h7.2⟩
     have ht := timesOpen_eq c e
     simp only [gPeriod, gBegin, gEnd, gType, gState] at h1 h2 h3 h4 h5
-    simp only [deliveryEv, hforce, hpaused, hu]
+    simp only [deliveryEv, hclaim, hflags, hpaused, hu]
     cases hf : force
-    · have := hflags hf
-      subst hf
+    · subst hf
       cases hp : (ty == NType.problem) <;> cases hb : beforeBegin c e <;> cases ha : afterEnd c e <;>
         simp_all
     · simp
@@ -358,13 +382,13 @@ def RecInv (ps : List Nat) (s : St) : Prop := ∀ x ∈ s.npu, x ∈ ps
 theorem pre_npu (s : St) (ty : NType) : (pre s ty).npu = s.npu := by
   unfold pre; cases (ty == NType.recovery) <;> simp
 
-theorem recipients_begin (c : Cfg) (k : OpKind) (e : Env) (ty : NType) (force rem : Bool) (hforce : forceOf k e = force) :
-    Pres (recipientsEv k e) RecInv (fun _ => True) (beginStep c ty force rem e) := by
+theorem recipients_begin (c : Cfg) (e : Env) (ty : NType) (force rem : Bool) :
+    Pres (recipientsEv e) RecInv (fun _ => True) (beginStep c ty force rem e) := by
   apply Pres_begin
   intro ps s hi
   rcases beginExec_split c s ty force rem e with ⟨h, hn, _⟩ | ⟨_, _, _, _, _, h⟩
   · rw [h]
-    rcases filteredEv_cases ty rem with ⟨hne, h'⟩ | ⟨hre, h'⟩
+    rcases filteredEv_cases ty rem force with ⟨hne, h'⟩ | ⟨hre, h'⟩
     · rw [h']; simp only
       have : (ty == NType.recovery) = false := by simpa using hne
       intro x hx; rw [hn] at hx; simp only [this, Bool.false_and, Bool.false_eq_true, if_false] at hx; exact hi x hx
@@ -373,7 +397,7 @@ theorem recipients_begin (c : Cfg) (k : OpKind) (e : Env) (ty : NType) (force re
       refine ⟨by simp [recipientsEv], ?_⟩
       intro x hx
       rw [hn] at hx
-      simp only [recipientsEv, recoveryWithheld, hforce, beq_self_eq_true, if_true, Bool.not_false, Bool.true_and]
+      simp only [recipientsEv, recoveryWithheld, beq_self_eq_true, if_true, Bool.not_false, Bool.true_and]
       simp only [gPeriod, beq_self_eq_true, Bool.true_and] at hx
       cases hg : (!force && !e.periodOpen)
       · simp [hg] at hx
@@ -501,7 +525,7 @@ theorem noDup_begin (c : Cfg) (e : Env) (ty : NType) (force rem : Bool) :
   intro ls s hi
   rcases beginExec_split c s ty force rem e with ⟨h, _, hl⟩ | ⟨_, _, _, _, _, h⟩
   · rw [h]
-    rcases filteredEv_cases ty rem with ⟨hne, h'⟩ | ⟨_, h'⟩
+    rcases filteredEv_cases ty rem force with ⟨hne, h'⟩ | ⟨_, h'⟩
     · rw [h']; simp only; unfold DupInv; rw [hl, pre_lns_of_ne s ty hne]; exact hi
     · rw [h']; simp only; intro _
       refine ⟨by simp [noDupEv], ?_⟩
@@ -555,20 +579,20 @@ theorem pre_next (s : St) (ty : NType) : (pre s ty).next = s.next ∧ (pre s ty)
   unfold pre; cases (ty == NType.recovery) <;> simp
 
 theorem reminder_begin_core (c : Cfg) (k : OpKind) (e : Env) (ty : NType) (force rem : Bool)
-    (hforce : forceOf k e = force) (g : RemSt) (s : St) (hi : RemInvE c e g s)
+    (g : RemSt) (s : St) (hi : RemInvE c e g s)
     (hrem : rem = true → k = .tick ∧ ty = .problem ∧ remCondOk e = true ∧ remSpacingOk c e g = true ∧
-      remInterval0Ok c g = true) :
+      remInterval0Ok c g = true ∧ e.ckProblemPending = false) :
     (match (beginExec c s ty force rem e).2 with
      | none => RemInvE c e g (beginExec c s ty force rem e).1
      | some ev => (reminderEv c k e g ev).1 = none ∧ RemInvE c e (reminderEv c k e g ev).2 (beginExec c s ty force rem e).1) := by
   obtain ⟨pn, pm⟩ := pre_next s ty
   -- a filtered Recovery is never a reminder
   have hfilt : ∀ s' : St, (0 < c.interval → s.next ≤ s'.next) → (ty ≠ .recovery → s.noMore = true → s'.noMore = true) →
-      (match filteredEv ty rem with
+      (match filteredEv ty rem force with
        | none => RemInvE c e g s'
        | some ev => (reminderEv c k e g ev).1 = none ∧ RemInvE c e (reminderEv c k e g ev).2 s') := by
     intro s' hn hm
-    rcases filteredEv_cases ty rem with ⟨hne, h'⟩ | ⟨hre, h'⟩
+    rcases filteredEv_cases ty rem force with ⟨hne, h'⟩ | ⟨hre, h'⟩
     · rw [h']; exact RemInvE_mono hi rfl id hn (fun _ => hm hne)
     · rw [h']
       have hr : rem = false := by
@@ -608,13 +632,13 @@ theorem reminder_begin_core (c : Cfg) (k : OpKind) (e : Env) (ty : NType) (force
   · obtain ⟨_, hb, _, _, _, h⟩ := h
     rw [h]
     simp only [passedResult]
-    have hchk : (reminderEv c k e g ⟨ty, rem, true, (userLoop c ty force rem e (book c (pre s ty) ty e).npu
+    have hchk : (reminderEv c k e g ⟨ty, rem, true, force, (userLoop c ty force rem e (book c (pre s ty) ty e).npu
         (book c (pre s ty) ty e).lns e.users).2.2⟩).1 = none := by
       cases hr : rem
       · simp [reminderEv]
-      · obtain ⟨a1, a2, a3, a4, a5⟩ := hrem hr
+      · obtain ⟨a1, a2, a3, a4, a5, a6⟩ := hrem hr
         subst a1; subst a2
-        simp [reminderEv, a3, a4, a5]
+        simp [reminderEv, a3, a4, a5, a6]
     refine ⟨hchk, ?_⟩
     by_cases hprob : ty = .problem
     · subst hprob
@@ -622,7 +646,7 @@ theorem reminder_begin_core (c : Cfg) (k : OpKind) (e : Env) (ty : NType) (force
       · -- unforced Problem: becomes the remembered one
         subst hf
         intro t1 l hl
-        simp only [reminderEv, hforce, Bool.not_true, Bool.false_eq_true, if_false, beq_self_eq_true, if_true,
+        simp only [reminderEv, Bool.not_true, Bool.false_eq_true, if_false, beq_self_eq_true, if_true,
           Option.some.injEq, Prod.mk.injEq] at hl
         obtain ⟨h1, h2⟩ := hl
         subst h1; subst h2
@@ -637,9 +661,9 @@ theorem reminder_begin_core (c : Cfg) (k : OpKind) (e : Env) (ty : NType) (force
         · intro _ hint
           simp [book, hint]
       · subst hf
-        have hg : (reminderEv c k e g ⟨.problem, rem, true, (userLoop c .problem true rem e (book c (pre s .problem) .problem e).npu
+        have hg : (reminderEv c k e g ⟨.problem, rem, true, true, (userLoop c .problem true rem e (book c (pre s .problem) .problem e).npu
             (book c (pre s .problem) .problem e).lns e.users).2.2⟩).2 = g := by
-          simp [reminderEv, hforce]
+          simp [reminderEv]
         rw [hg]
         intro t1 l hl
         obtain ⟨a, b, c', d, f⟩ := hi t1 l hl
@@ -665,13 +689,23 @@ theorem reminder_begin_core (c : Cfg) (k : OpKind) (e : Env) (ty : NType) (force
 
 theorem Pres_send {G : Type} {f : G → Event → Option Clause × G} {Inv : G → St → Prop} {P : Event → Prop}
     (c : Cfg) (ty : NType) (e : Env)
-    (hb : sendBlocked e = false → Pres f Inv P (beginStep c ty e.force false e)) :
+    (hstash : ∀ g s l, Inv g s → Inv g { s with stash := l })
+    (hb : sendBlocked e = false → e.paused = false → Pres f Inv P (beginStep c ty e.force false e)) :
     Pres f Inv P (fun s => sendStep c s ty e) := by
   intro g s hi hp
   simp only [sendStep] at hp ⊢
   cases hbl : sendBlocked e
   · simp only [hbl, Bool.false_eq_true, if_false] at hp ⊢
-    exact hb hbl g s hi hp
+    cases hau : e.authUpdated
+    · simp only [Bool.not_false, if_true]; exact ⟨rfl, hstash g s _ hi⟩
+    · simp only [hau, Bool.not_true, Bool.false_eq_true, if_false] at hp ⊢
+      cases hpa : e.paused
+      · simp only [hpa, Bool.false_eq_true, if_false] at hp ⊢
+        cases hst : s.stash.isEmpty
+        · simp only [Bool.not_false, if_true]; exact ⟨rfl, hstash g s _ hi⟩
+        · simp only [hst, Bool.not_true, Bool.false_eq_true, if_false] at hp ⊢
+          exact hb hbl hpa g s hi hp
+      · simp only [if_true]; exact ⟨rfl, hi⟩
   · simp only [if_true]; exact ⟨rfl, hi⟩
 
 theorem Pres_reminderStep {G : Type} {f : G → Event → Option Clause × G} {Inv : G → St → Prop} {P : Event → Prop}
@@ -690,15 +724,21 @@ theorem Pres_reminderStep {G : Type} {f : G → Event → Option Clause × G} {I
 theorem Pres_tick {G : Type} {f : G → Event → Option Clause × G} {Inv : G → St → Prop} {P : Event → Prop}
     (c : Cfg) (e : Env)
     (hsup : ∀ g s sup, Inv g s → Inv g { s with sup := sup })
-    (hb : tickSkipped e = false → ∀ ty, Pres f Inv P (beginStep c ty false false e))
+    (hstash : ∀ g s l, Inv g s → Inv g { s with stash := l })
+    (hb : tickSkipped e = false → ∀ ty force, Pres f Inv P (beginStep c ty force false e))
     (hr : tickSkipped e = false → Pres f Inv P (reminderStep c e)) :
     Pres f Inv P (fun s => tickStep c s e) := by
   intro g s hi hp
+  have hd : Inv g (dropStash s e) := by
+    unfold dropStash
+    cases (e.paused && e.authUpdated)
+    · exact hi
+    · exact hstash g s [] hi
   simp only [tickStep] at hp ⊢
   cases hs : tickSkipped e
   · simp only [hs, Bool.false_eq_true, if_false] at hp ⊢
-    exact Pres_seq (Pres_supStep c e hsup (hb hs)) (hr hs) g s hi hp
-  · simp only [if_true]; exact ⟨rfl, hi⟩
+    exact Pres_seq (Pres_supStep c e hsup hstash (hb hs)) (hr hs) g _ hd hp
+  · simp only [if_true]; exact ⟨rfl, hd⟩
 
 /-- Side condition on a whole observed operation. -/
 def allEv (P : Event → Prop) (o : Obs) : Prop := ∀ ev ∈ o.events, P ev
@@ -709,49 +749,56 @@ theorem delivery_op (c : Cfg) (g : Unit) (s : St) (op : Op) :
     (deliveryObs c g (applyOp c s op).2).1 = none := by
   cases op with
   | send ty e =>
-    refine (Pres_send (f := deliveryEv c .send e) (Inv := fun _ _ => True) (P := fun _ => True) c ty e ?_ g s trivial
-      (fun _ _ => trivial)).1
-    intro hbl
+    refine (Pres_send (f := deliveryEv c .send e) (Inv := fun _ _ => True) (P := fun _ => True) c ty e
+      (fun _ _ _ _ => trivial) ?_ g s trivial (fun _ _ => trivial)).1
+    intro hbl hpa
     apply delivery_begin c .send e ty e.force false
-    · simp [forceOf]
-    · intro hf; simp [sendBlocked, hf] at hbl; simp [hbl.1]
-    · simp [sendBlocked] at hbl; simp [pausedFor, hbl.2]
+    · cases e.force <;> simp
+    · simp only [sendBlocked] at hbl
+      cases hf : e.force <;> simp_all
+    · simp [pausedFor, hpa]
   | tick e =>
+    have hfl : tickSkipped e = false → (e.globalEnabled && e.ckEnabled) = true ∧ pausedFor .tick e = false := by
+      intro hs
+      simp only [tickSkipped, Bool.or_eq_false_iff, Bool.not_eq_false'] at hs
+      exact ⟨hs.2, by simp [pausedFor, hs.1]⟩
     refine (Pres_tick (f := deliveryEv c .tick e) (Inv := fun _ _ => True) (P := fun _ => True) c e
-      (fun _ _ _ _ => trivial) ?_ ?_ g s trivial (fun _ _ => trivial)).1
-    · intro hs ty
-      apply delivery_begin c .tick e ty false false
-      · simp [forceOf]
-      · intro _; simp [tickSkipped] at hs; simp [hs.2]
-      · simp [tickSkipped] at hs; simp [pausedFor]; intro hp; exact hs.1 hp
+      (fun _ _ _ _ => trivial) (fun _ _ _ _ => trivial) ?_ ?_ g s trivial (fun _ _ => trivial)).1
+    · intro hs ty force
+      apply delivery_begin c .tick e ty force false
+      · simp
+      · simp [(hfl hs).1]
+      · exact (hfl hs).2
     · intro hs
       apply Pres_reminderStep c e (fun _ _ _ _ => trivial)
       apply delivery_begin c .tick e .problem false true
-      · simp [forceOf]
-      · intro _; simp [tickSkipped] at hs; simp [hs.2]
-      · simp [tickSkipped] at hs; simp [pausedFor]; intro hp; exact hs.1 hp
+      · simp
+      · simp [(hfl hs).1]
+      · exact (hfl hs).2
 
 theorem recipients_op (c : Cfg) (ps : List Nat) (s : St) (op : Op) (hi : RecInv ps s) :
     (recipientsObs ps (applyOp c s op).2).1 = none ∧ RecInv (recipientsObs ps (applyOp c s op).2).2 (applyOp c s op).1 := by
   have hsup : ∀ (g : List Nat) (s : St) (sup : Sup), RecInv g s → RecInv g { s with sup := sup } := fun _ _ _ h => h
+  have hstash : ∀ (g : List Nat) (s : St) (l : List (NType × Bool)), RecInv g s → RecInv g { s with stash := l } := fun _ _ _ h => h
   have hnext : ∀ (g : List Nat) (s : St) (n : Int), RecInv g s → RecInv g { s with next := n } := fun _ _ _ h => h
   cases op with
   | send ty e =>
-    exact Pres_send c ty e (fun _ => recipients_begin c .send e ty e.force false (by simp [forceOf])) ps s hi (fun _ _ => trivial)
+    exact Pres_send c ty e hstash (fun _ _ => recipients_begin c e ty e.force false) ps s hi (fun _ _ => trivial)
   | tick e =>
-    exact Pres_tick c e hsup (fun _ ty => recipients_begin c .tick e ty false false (by simp [forceOf]))
-      (fun _ => Pres_reminderStep c e hnext (recipients_begin c .tick e .problem false true (by simp [forceOf]))) ps s hi
-      (fun _ _ => trivial)
+    exact Pres_tick c e hsup hstash (fun _ ty force => recipients_begin c e ty force false)
+      (fun _ => Pres_reminderStep c e hnext (recipients_begin c e .problem false true)) ps s hi (fun _ _ => trivial)
 
 theorem noDup_op (c : Cfg) (ls : Nat → Option Nat) (s : St) (op : Op) (hi : DupInv ls s) :
     (noDupObs ls (applyOp c s op).2).1 = none ∧ DupInv (noDupObs ls (applyOp c s op).2).2 (applyOp c s op).1 := by
   have hsup : ∀ (g : Nat → Option Nat) (s : St) (sup : Sup), DupInv g s → DupInv g { s with sup := sup } := fun _ _ _ h => h
+  have hstash : ∀ (g : Nat → Option Nat) (s : St) (l : List (NType × Bool)), DupInv g s → DupInv g { s with stash := l } :=
+    fun _ _ _ h => h
   have hnext : ∀ (g : Nat → Option Nat) (s : St) (n : Int), DupInv g s → DupInv g { s with next := n } := fun _ _ _ h => h
   cases op with
   | send ty e =>
-    exact Pres_send c ty e (fun _ => noDup_begin c e ty e.force false) ls s hi (fun _ _ => trivial)
+    exact Pres_send c ty e hstash (fun _ _ => noDup_begin c e ty e.force false) ls s hi (fun _ _ => trivial)
   | tick e =>
-    exact Pres_tick c e hsup (fun _ ty => noDup_begin c e ty false false)
+    exact Pres_tick c e hsup hstash (fun _ ty force => noDup_begin c e ty force false)
       (fun _ => Pres_reminderStep c e hnext (noDup_begin c e .problem false true)) ls s hi (fun _ _ => trivial)
 
 /-! ### reminder, one operation -/
@@ -786,11 +833,11 @@ theorem RemInvE_forget (c : Cfg) (e : Env) (g : RemSt) (s : St) (h : RemInvE c e
   obtain ⟨_, _, a, b, d⟩ := h t1 l hl
   exact ⟨a, b, d⟩
 
-theorem reminder_begin (c : Cfg) (k : OpKind) (e : Env) (ty : NType) (force : Bool) (hforce : forceOf k e = force) :
+theorem reminder_begin (c : Cfg) (k : OpKind) (e : Env) (ty : NType) (force : Bool) :
     Pres (reminderEv c k e) (RemInvE c e) (fun _ => True) (beginStep c ty force false e) := by
   apply Pres_begin
   intro g s hi
-  have := reminder_begin_core c k e ty force false hforce g s hi (by simp)
+  have := reminder_begin_core c k e ty force false g s hi (by simp)
   rcases hq : (beginExec c s ty force false e).2 with _ | ev
   · rw [hq] at this; exact this
   · rw [hq] at this; intro _; exact this
@@ -818,6 +865,9 @@ theorem reminder_reminderStep (c : Cfg) (e : Env) :
         obtain ⟨⟨⟨a1, a2⟩, _⟩, ⟨⟨a4, a5⟩, a6⟩, a7⟩ := ha
         simp only [Bool.not_eq_false'] at a4
         exact ⟨⟨⟨⟨⟨a1, a2⟩, a4⟩, a5⟩, a6⟩, a7⟩
+      have hck : e.ckProblemPending = false := by
+        simp only [reminderAllowed, Bool.and_eq_true, Bool.not_eq_true', Bool.or_eq_false_iff] at ha
+        exact ha.1.2.1
       have hsp : remSpacingOk c e g = true := by
         unfold remSpacingOk
         rcases hl : g.lastProb with _ | ⟨t1, l⟩
@@ -840,8 +890,8 @@ theorem reminder_reminderStep (c : Cfg) (e : Env) :
               · exact absurd hint h
               · rw [this] at h; cases h
             · simp [hint]
-      have := reminder_begin_core c .tick e .problem false true (by simp [forceOf]) g _ hi1
-        (fun _ => ⟨rfl, rfl, hcond, hsp, hi0⟩)
+      have := reminder_begin_core c .tick e .problem false true g _ hi1
+        (fun _ => ⟨rfl, rfl, hcond, hsp, hi0, hck⟩)
       rw [evFold_opt]
       rcases hq : (beginExec c { s with next := e.now + c.interval } .problem false true e).2 with _ | ev
       · rw [hq] at this; exact ⟨rfl, this⟩
@@ -851,17 +901,20 @@ theorem reminder_op (c : Cfg) (g : RemSt) (s : St) (op : Op) (hi : RemInv c g s)
     (reminderObs c g (applyOp c s op).2).1 = none ∧ RemInv c (reminderObs c g (applyOp c s op).2).2 (applyOp c s op).1 := by
   cases op with
   | send ty e =>
-    have := Pres_send (f := reminderEv c .send e) c ty e (fun _ => reminder_begin c .send e ty e.force (by simp [forceOf]))
+    have hstash : ∀ (g : RemSt) (s : St) (l : List (NType × Bool)), RemInvE c e g s → RemInvE c e g { s with stash := l } :=
+      fun _ _ _ h => h
+    have := Pres_send (f := reminderEv c .send e) c ty e hstash (fun _ _ => reminder_begin c .send e ty e.force)
       (remValidate e g) s (RemInv_validate c e g s hi) (fun _ _ => trivial)
     exact ⟨this.1, RemInvE_forget c e _ _ this.2⟩
   | tick e =>
     have hsup : ∀ (g : RemSt) (s : St) (sup : Sup), RemInvE c e g s → RemInvE c e g { s with sup := sup } := fun _ _ _ h => h
-    have := Pres_tick (f := reminderEv c .tick e) c e hsup
-      (fun _ ty => reminder_begin c .tick e ty false (by simp [forceOf])) (fun _ => reminder_reminderStep c e)
+    have hstash : ∀ (g : RemSt) (s : St) (l : List (NType × Bool)), RemInvE c e g s → RemInvE c e g { s with stash := l } :=
+      fun _ _ _ h => h
+    have := Pres_tick (f := reminderEv c .tick e) c e hsup hstash
+      (fun _ ty force => reminder_begin c .tick e ty force) (fun _ => reminder_reminderStep c e)
       (remValidate e g) s (RemInv_validate c e g s hi) (fun _ _ => trivial)
     exact ⟨this.1, RemInvE_forget c e _ _ this.2⟩
 
-/-- If the fold accepts a list of events, the checker accepted each of them in some bookkeeping state. -/
 theorem evFold_none_mem {G : Type} (f : G → Event → Option Clause × G) :
     ∀ (evs : List Event) (g : G), (evFold f g evs).1 = none → ∀ ev ∈ evs, ∃ g', (f g' ev).1 = none := by
   intro evs
@@ -876,5 +929,124 @@ theorem evFold_none_mem {G : Type} (f : G → Event → Option Clause × G) :
       · subst hm; exact ⟨g, by rw [hq]⟩
       · exact ih g1 h ev hm
     · rw [hq] at h; cases h
+
+/-! ## A reminder never overtakes a Problem the notification object holds back -/
+
+/-- All events of a call carry the call's reminder flag. -/
+theorem beginStep_reminder (c : Cfg) (ty : NType) (force rem : Bool) (e : Env) (s : St) :
+    ∀ ev ∈ (beginStep c ty force rem e s).2, ev.reminder = rem := by
+  intro ev hm
+  simp only [beginStep] at hm
+  rcases beginExec_split c s ty force rem e with ⟨h, _, _⟩ | ⟨_, _, _, _, _, h⟩
+  · rw [h] at hm
+    rcases filteredEv_cases ty rem force with ⟨_, h'⟩ | ⟨_, h'⟩
+    · rw [h'] at hm; simp at hm
+    · rw [h'] at hm; simp at hm; rw [hm]
+  · rw [h] at hm; simp [passedResult] at hm; rw [hm]
+
+def NoRem (step : St → St × List Event) : Prop := ∀ s, ∀ ev ∈ (step s).2, ev.reminder = false
+
+theorem NoRem_seq {a b : St → St × List Event} (ha : NoRem a) (hb : NoRem b) : NoRem (seq a b) := by
+  intro s ev hm
+  simp only [seq, List.mem_append] at hm
+  rcases hm with hm | hm
+  · exact ha s ev hm
+  · exact hb _ ev hm
+
+theorem NoRem_fireOne (c : Cfg) (fire : Bool) (ty : NType) (e : Env) : NoRem (fireOne c fire ty e) := by
+  rw [fireOne_eq]
+  intro s ev hm
+  cases fire
+  · simp at hm
+  · simp only [if_true] at hm; exact beginStep_reminder c ty false false e _ ev hm
+
+theorem NoRem_unstashList (c : Cfg) (e : Env) : ∀ l : List (NType × Bool), NoRem (unstashList c e l) := by
+  intro l
+  induction l with
+  | nil => intro s ev hm; simp [unstashList] at hm
+  | cons a rest ih =>
+    obtain ⟨ty, force⟩ := a
+    intro s ev hm
+    simp only [unstashList] at hm
+    exact NoRem_seq (fun s ev hm => beginStep_reminder c ty force false e s ev hm) ih s ev hm
+
+theorem NoRem_supStep (c : Cfg) (e : Env) : NoRem (supStep c e) := by
+  intro s ev hm
+  simp only [supStep] at hm
+  cases hr : e.reachable
+  · simp [hr] at hm
+  · simp only [hr, if_true] at hm
+    refine NoRem_seq (a := unstash c e) (b := fireSup c e) ?_ ?_ s ev hm
+    · intro s ev hm; simp only [unstash] at hm; exact NoRem_unstashList c e _ _ ev hm
+    · intro s ev hm
+      simp only [fireSup] at hm
+      exact NoRem_seq (NoRem_fireOne c _ .problem e) (NoRem_seq (NoRem_fireOne c _ .recovery e)
+        (NoRem_seq (NoRem_fireOne c _ .flapStart e) (NoRem_fireOne c _ .flapEnd e))) _ ev hm
+
+/-- If the reminder part of the handler emits anything, the object holds no Problem back afterwards. -/
+theorem reminderStep_held (c : Cfg) (e : Env) (s : St) :
+    (reminderStep c e s).2 ≠ [] → (reminderStep c e s).1.sup.problem = false := by
+  simp only [reminderStep]
+  cases hd : reminderDue c s e
+  · simp
+  · simp only [if_true]
+    cases ha : reminderAllowed { s with next := e.now + c.interval } e
+    · simp
+    · simp only [if_true]
+      have hp : s.sup.problem = false := by
+        simp only [reminderAllowed, Bool.and_eq_true, Bool.not_eq_true', Bool.or_eq_false_iff] at ha
+        exact ha.1.2.2
+      rcases beginExec_split c { s with next := e.now + c.interval } .problem false true e with ⟨h, _, _⟩ | ⟨_, _, _, _, _, h⟩
+      · rw [h]; simp [filteredEv]
+      · rw [h]; intro _; simp [passedResult, book, pre, hp]
+
+theorem held_op (c : Cfg) (s : St) (op : Op) : heldObs (applyOp c s op).2 = none := by
+  cases op with
+  | send ty e =>
+    have hno : ∀ ev ∈ (sendStep c s ty e).2, ev.reminder = false := by
+      intro ev hm
+      simp only [sendStep] at hm
+      cases hb : sendBlocked e
+      · simp only [hb, Bool.false_eq_true, if_false] at hm
+        cases hau : e.authUpdated
+        · simp [hau] at hm
+        · simp only [hau, Bool.not_true, Bool.false_eq_true, if_false] at hm
+          cases hpa : e.paused
+          · simp only [hpa, Bool.false_eq_true, if_false] at hm
+            cases hst : s.stash.isEmpty
+            · simp [hst] at hm
+            · simp only [hst, Bool.not_true, Bool.false_eq_true, if_false] at hm
+              exact beginStep_reminder c ty e.force false e s ev hm
+          · simp [hpa] at hm
+      · simp [hb] at hm
+    have : (sendStep c s ty e).2.any (fun ev => ev.reminder) = false := by
+      rw [List.any_eq_false]; intro ev hm; simp [hno ev hm]
+    simp [heldObs, applyOp, this]
+  | tick e =>
+    simp only [heldObs, applyOp, tickStep]
+    by_cases hs : tickSkipped e = true
+    · simp [hs]
+    · simp only [hs, if_false, seq]
+      generalize dropStash s e = s0
+      cases hh : (reminderStep c e (supStep c e s0).1).1.sup.problem
+      · simp [hh]
+      · have hnil : (reminderStep c e (supStep c e s0).1).2 = [] := by
+          rcases hq : (reminderStep c e (supStep c e s0).1).2 with _ | ⟨a, l⟩
+          · rfl
+          · have := reminderStep_held c e (supStep c e s0).1 (by rw [hq]; simp)
+            rw [hh] at this; cases this
+        have : ((supStep c e s0).2 ++ (reminderStep c e (supStep c e s0).1).2).any (fun ev => ev.reminder) = false := by
+          rw [hnil, List.append_nil, List.any_eq_false]
+          intro ev hm; simp [NoRem_supStep c e s0 ev hm]
+        simp [this]
+
+theorem heldTrace_ok (c : Cfg) : ∀ (ops : List Op) (s : St), heldTrace (traceOf c s ops) = none := by
+  intro ops
+  induction ops with
+  | nil => intro s; rfl
+  | cons op rest ih =>
+    intro s
+    simp only [traceOf, heldTrace, held_op]
+    exact ih _
 
 end Icinga.C03
